@@ -1,6 +1,7 @@
 package sim
 
 import (
+	"encoding/binary"
 	"encoding/json"
 	"fmt"
 	"os"
@@ -288,6 +289,13 @@ func TestWorker(t *testing.T) {
 	var firstHashes, firstSeeds []uint64
 	sigs := map[uint64]bool{}
 	ntsigs := map[uint64]bool{}
+	var curFile *os.File
+	if job.Out != "" {
+		curFile, _ = os.Create(job.Out + ".cur")
+		if curFile != nil {
+			defer curFile.Close()
+		}
+	}
 	for i := 0; i < job.Count; i++ {
 		if job.BudgetS > 0 && time.Since(start).Seconds() > job.BudgetS {
 			break
@@ -298,6 +306,15 @@ func TestWorker(t *testing.T) {
 			res.FirstSeed = seed
 		}
 		plan := &Plan{Prop: job.Prop, Profile: job.Prop, Seed: seed, Index: idx + 1}
+		if curFile != nil {
+			// which run is executing: a panic in a goroutine started by gkvlite
+			// (iterator producer) cannot be recovered and kills the process;
+			// the driver then replays this run from its seed
+			var b [16]byte
+			binary.BigEndian.PutUint64(b[0:8], seed)
+			binary.BigEndian.PutUint64(b[8:16], uint64(idx+1))
+			curFile.WriteAt(b[:], 0)
+		}
 		t0 := time.Now()
 		r := runOne(t, plan)
 		if d := time.Since(t0).Seconds(); d > 3 {
